@@ -13,7 +13,7 @@ PROP = 'C20'
 MANIFEST = dict(
     technique='TLA+ model Secondary (scenes.image container state machine; per-format case enumeration with Decay/Representable laws in SecondaryOps) checked by TLC; every container transition and every enumerated case replayed on the real writers/readers; implementation records validated by TLC (SecondaryTrace)',
     category='model_checking',
-    text='TLC exhausts the scenes.image container design (3 file names, a second spelling of one of them, 3 scenes, 2 save slots, versions 2 and 3, histories of Add/Drop/Save/Load/Merge/Touch) with sorted-and-distinct-checksum and summary-consistency invariants (duration, last-speak, sounds defined over the abstract event list), and every transition is replayed on real Entry dictionaries, the saved bytes being decoded by the harness itself (header, table, summaries). For command sequences, choreo scenes (text and binary), soundscripts, VMT, PCF and SMD TLC enumerates the optional-block / enum-member combinations (every event type x every feature, field-width classes, value-range forms, block shapes: ~7,900 cases); each is built through the API, written, read, written again, and TLC requires the read value to equal Decay(format, value) field by field, the second output to equal the first, non-representable command sequences to be refused, and the command-sequence file size to equal the layout formula. Seeded random values and the sample files under tests/ (Read; Write; Read) are validated the same way.',
+    text='TLC exhausts the scenes.image container design (3 file names, a second spelling of one of them, 3 scenes, 2 save slots, versions 2 and 3, saving from a dictionary or a list, histories of Add/Drop/Rename/Save/Load/Merge/Touch; a renamed entry keeps its stale dictionary key) with sorted-and-distinct-checksum and summary-consistency invariants (duration, last-speak, sounds defined over the abstract event list), and every transition is replayed on real Entry dictionaries, the saved bytes being decoded by the harness itself (header, table, summaries) and required to be identical after read-and-write-again. For command sequences, choreo scenes (text and binary), soundscripts, VMT, PCF and SMD TLC enumerates the optional-block / enum-member combinations (every event type x every feature, field-width classes, value-range forms, block shapes: ~7,900 cases); each is built through the API, written, read, written again, and TLC requires the read value to equal Decay(format, value) field by field, the second output to equal the first, non-representable command sequences to be refused, and the command-sequence file size to equal the layout formula. Seeded random values and the sample files under tests/ (Read; Write; Read) are validated the same way.',
     design_ref='4 (C20)',
     note='Weakest fit of the technique (DESIGN 4/C20): for the six formats TLC contributes the enumeration of the input space, the decay/representability definitions and the evaluation of the law on projections, not an independent definition of the bytes (except the command-sequence size and the scenes.image table). PCF bytes can never repeat (fresh element UUIDs per export): the second generation is compared as read back. Pure-Python tree only.',
 )
@@ -125,91 +125,132 @@ def sample(path) -> dict:
 
 
 def run(tier: str, seed: int) -> int:
+    """The stages are independent (each starts its own driver and TLC processes) and run side by side."""
+    import concurrent.futures as cf
     t0 = time.time()
     work = core.Work()
     thorough = tier == 'thorough'
     env = {'VERIF_SEED': seed, 'VERIF_TIER': tier}
-    try:
-        cov = {'states': 0, 'transitions': 0, 'records_validated': 0, 'models': {}, 'samples': [], 'timing_s': {}}
-        allm: list = []
-        traces = 0
-        last = [time.time()]
 
-        def lap(name: str) -> None:
-            now = time.time()
-            cov['timing_s'][name] = round(now - last[0], 1)
-            last[0] = now
+    def new_cov() -> dict:
+        return {'states': 0, 'transitions': 0, 'records_validated': 0, 'models': {}, 'samples': [], 'timing_s': {}, 'traces': 0}
 
-        def validate(path) -> None:
-            mism, st = core.validate_records('SecondaryTrace', 'SecondaryTrace.cfg', path, work=work)
-            allm.extend(mism)
-            cov['states'] += st['states']
-            cov['transitions'] += st['transitions']
-            cov['records_validated'] += st['records']
-            cov['samples'].append(sample(path))
-        with Env():
-            # ---- 1. the container design, every transition replayed
-            cfg = 'Secondary_edges4.cfg' if thorough else 'Secondary_edges.cfg'
-            r = run_tlc('Secondary', cfg, workers=1)
+    def validate(path, cov) -> list:
+        mism, st = core.validate_records('SecondaryTrace', 'SecondaryTrace.cfg', path, work=work)
+        cov['states'] += st['states']
+        cov['transitions'] += st['transitions']
+        cov['records_validated'] += st['records']
+        cov['samples'].append(sample(path))
+        return mism
+
+    def timed(name: str, fn):
+        def job():
+            t = time.time()
+            cov = new_cov()
+            mism = fn(cov)
+            cov['timing_s'][name] = round(time.time() - t, 1)
+            return mism, cov
+        return job
+
+    def image(cov):
+        # the container design, every transition replayed (the replay is cut into slices run side by side)
+        cfg = 'Secondary_edges4.cfg' if thorough else 'Secondary_edges.cfg'
+        r = run_tlc('Secondary', cfg, workers=1)
+        core.require_mc(r, cfg)
+        edges = [p for p in r.prints if isinstance(p, dict) and p.get('tag') == 'EDGE']
+        consts = [p for p in r.prints if isinstance(p, dict) and p.get('tag') == 'CONSTS']
+        if len(edges) != r.generated - 1 or len(consts) != 1:
+            raise MachineryError(f'{cfg}: {len(edges)} edges for {r.generated} generated states')
+        actions: dict = {}
+        for e in edges:
+            actions[e['a']['op']] = actions.get(e['a']['op'], 0) + 1
+        if not {'add', 'drop', 'rename', 'save', 'load', 'merge', 'touch'} <= set(actions):
+            raise MachineryError(f'vacuous container model: actions taken {actions}')
+        if not {e['a']['how'] for e in edges if e['a']['op'] == 'save'} >= {'dict', 'list'}:
+            raise MachineryError('container model never saves from both a dictionary and a list')
+        cov['actions_covered'] = actions
+        cov['models'][cfg] = {'generated': r.generated, 'distinct': r.distinct, 'depth': r.depth}
+        cov['states'] += r.distinct
+        cov['transitions'] += r.generated
+        ef = work.path('image_edges.json')
+        ef.write_text(json.dumps({'consts': consts[0], 'edges': edges}))
+        nsl = 6
+        per = (len(edges) + nsl - 1) // nsl
+
+        def one(j):
+            out = work.path(f'image{j}.ndjson')
+            st = json.loads(core.run_driver('c20_driver.py', ['image', ef, j * per, (j + 1) * per, out], env=env).strip().splitlines()[-1])
+            return out, st.get('edges_replayed', 0)
+        with cf.ThreadPoolExecutor(max_workers=nsl) as ex:
+            parts = list(ex.map(one, range(nsl)))
+        done = sum(n for _, n in parts)
+        if done != len(edges):
+            raise MachineryError(f'{cfg}: {done} of {len(edges)} edges replayed')
+        cov['edges_replayed'] = done
+        cov['traces'] += done
+        out = work.path('image.ndjson')
+        with open(out, 'w', encoding='utf-8') as f:
+            for pth, _ in parts:
+                f.write(open(pth, encoding='utf-8').read())
+        return validate(out, cov)
+
+    def cases(fmt: str):
+        def fn(cov):
+            cfg = f'Secondary_{fmt}_cases.cfg'
+            r = run_tlc('Secondary', cfg, workers=2)
             core.require_mc(r, cfg)
-            edges = [p for p in r.prints if isinstance(p, dict) and p.get('tag') == 'EDGE']
-            consts = [p for p in r.prints if isinstance(p, dict) and p.get('tag') == 'CONSTS']
-            if len(edges) != r.generated - 1 or len(consts) != 1:
-                raise MachineryError(f'{cfg}: {len(edges)} edges for {r.generated} generated states')
-            actions: dict = {}
-            for e in edges:
-                actions[e['a']['op']] = actions.get(e['a']['op'], 0) + 1
-            if not {'add', 'drop', 'save', 'load', 'merge', 'touch'} <= set(actions):
-                raise MachineryError(f'vacuous container model: actions taken {actions}')
-            cov['actions_covered'] = actions
-            cov['models'][cfg] = {'generated': r.generated, 'distinct': r.distinct, 'depth': r.depth}
+            items = [p for p in r.prints if isinstance(p, dict) and p.get('tag') == 'CASE']
+            if len(items) * 2 != r.distinct:
+                raise MachineryError(f'{cfg}: {len(items)} cases printed for {r.distinct} states')
+            cov['models'][cfg] = {'generated': r.generated, 'distinct': r.distinct, 'cases': len(items)}
             cov['states'] += r.distinct
             cov['transitions'] += r.generated
-            ef = work.path('image_edges.json')
-            ef.write_text(json.dumps({'consts': consts[0], 'edges': edges}))
-            out = work.path('image.ndjson')
-            st = json.loads(core.run_driver('c20_driver.py', ['image', ef, out], env=env).strip().splitlines()[-1])
-            cov['edges_replayed'] = st['edges_replayed']
-            traces += st['edges_replayed']
-            validate(out)
-            lap('image')
-            # ---- 2. every enumerated case of every format
-            ncases = 0
-            for fmt in FORMATS:
-                cfg = f'Secondary_{fmt}_cases.cfg'
-                r = run_tlc('Secondary', cfg, workers=4)
-                core.require_mc(r, cfg)
-                cases = [p for p in r.prints if isinstance(p, dict) and p.get('tag') == 'CASE']
-                if len(cases) * 2 != r.distinct:
-                    raise MachineryError(f'{cfg}: {len(cases)} cases printed for {r.distinct} states')
-                cov['models'][cfg] = {'generated': r.generated, 'distinct': r.distinct, 'cases': len(cases)}
-                cov['states'] += r.distinct
-                cov['transitions'] += r.generated
-                cf = work.path(f'cases_{fmt}.json')
-                cf.write_text(json.dumps([{'fmt': c['fmt'], 'feat': c['feat'], 'v': c['v']} for c in cases]))
-                out = work.path(f'cases_{fmt}.ndjson')
-                st = json.loads(core.run_driver('c20_driver.py', ['cases', cf, out], env=env).strip().splitlines()[-1])
-                if st['cases'] != len(cases):
-                    raise MachineryError(f'{cfg}: driver ran {st["cases"]} of {len(cases)} cases')
-                ncases += st['cases']
-                validate(out)
-                lap('cases_' + fmt)
-            cov['cases_replayed'] = ncases
-            traces += ncases
-            # ---- 3. beyond the bounds, and the repository's sample files
-            for mode in ('random', 'samples'):
-                out = work.path(mode + '.ndjson')
-                st = json.loads(core.run_driver('c20_driver.py', [mode, out], env=env).strip().splitlines()[-1])
-                cov[mode + '_records'] = st['records']
-                traces += st['records']
-                validate(out)
-                lap(mode)
-        cov['traces_validated_against_impl'] = traces
+            cfile = work.path(f'cases_{fmt}.json')
+            cfile.write_text(json.dumps([{'fmt': c['fmt'], 'feat': c['feat'], 'v': c['v']} for c in items]))
+            out = work.path(f'cases_{fmt}.ndjson')
+            st = json.loads(core.run_driver('c20_driver.py', ['cases', cfile, out], env=env).strip().splitlines()[-1])
+            if st['cases'] != len(items):
+                raise MachineryError(f'{cfg}: driver ran {st["cases"]} of {len(items)} cases')
+            cov['cases_replayed'] = st['cases']
+            cov['traces'] += st['cases']
+            return validate(out, cov)
+        return fn
+
+    def beyond(mode: str):
+        def fn(cov):
+            out = work.path(mode + '.ndjson')
+            st = json.loads(core.run_driver('c20_driver.py', [mode, out], env=env).strip().splitlines()[-1])
+            cov[mode + '_records'] = st['records']
+            cov['traces'] += st['records']
+            return validate(out, cov)
+        return fn
+
+    try:
+        jobs = [timed('image', image)] + [timed('cases_' + f, cases(f)) for f in ('snd', 'vcd', 'bvcd', 'cmdseq', 'pcf', 'vmt', 'smd')] \
+            + [timed(m, beyond(m)) for m in ('random', 'samples')]
+        total = new_cov()
+        allm: list = []
+        with Env():
+            with cf.ThreadPoolExecutor(max_workers=5) as ex:
+                for mism, cov in ex.map(lambda j: j(), jobs):
+                    allm += mism
+                    for k, v in cov.items():
+                        if isinstance(v, bool) or not isinstance(v, (int, float, dict, list)):
+                            total[k] = v
+                        elif isinstance(v, (int, float)):
+                            total[k] = total.get(k, 0) + v
+                        elif isinstance(v, list):
+                            total.setdefault(k, []).extend(v)
+                        else:
+                            total.setdefault(k, {}).update(v)
+        cov = total
+        cov['traces_validated_against_impl'] = cov.pop('traces')
         cov['mismatches'] = len(allm)
         cov['exhaustive'] = True
-        cov['rule'] = ('every transition of the bounded scenes.image container model (histories of length <= 3, thorough 4) replayed by its '
-                       'shortest path; every enumerated case of the seven format families; seeded random scenes / command sequences / '
-                       'meshes; sample files under tests/ as Read;Write;Read')
+        cov['rule'] = ('every transition of the bounded scenes.image container model (quick: scenes added under 2 of 3 file names, 2 scenes, '
+                       '1 slot; thorough: 3, 3, 2; histories of length <= 4 of Add/Drop/Rename/Save(dict|list, v2|v3)/Load/Merge/Touch) '
+                       'replayed by its shortest path; every enumerated case of the seven format families; seeded random scenes / '
+                       'command sequences / meshes; sample files under tests/ as Read;Write;Read')
         known, new = core.classify(PROP, [sig_of(m) for m in allm])
         return core.finish(PROP, tier=tier, seed=seed, t0=t0, coverage=cov, known=known, new=new,
                            assumptions=['pure-Python srctools from /repo/src (Cython accelerators cannot be built here)',
